@@ -1,3 +1,4 @@
+import Sparrow.Proofs.StokesFnEquiv
 import Sparrow.Proofs.StokesLemmas
 import Sparrow.Proofs.StokesConstants
 /-
@@ -55,3 +56,15 @@ theorem stokes_reciprocity (cut : ℝ) (pi pj : Nat → Vec3 ℝ) (ni nj : Nat) 
   Sparrow.stokes_reciprocity cut pi pj ni nj ai aj hi hj
 
 end Sparrow.Props.C06
+
+namespace Sparrow.Props.C06.StokesFn
+open Sparrow Sparrow.Generated.StokesFn
+
+/-- **`stokes_integration` as recognised = the model's `stokesFF`**, for every pair of polygons, every cut-off and area, and
+    whatever the `np.empty` buffers of the boundary sampler held -/
+theorem stokesIntegration_eq (cut : ℝ) (pI pJ : Nat → Nat → ℝ) (nI nJ : Nat) (area : ℝ)
+    (jp1 jp2 : Nat → Nat → ℝ) (jc1 jc2 : Nat → Nat → Nat) :
+    stokesIntegration cut pI pJ nI nJ area jp1 jp2 jc1 jc2 = stokesFF cut (ptsOf pI) (ptsOf pJ) nI nJ area :=
+  Sparrow.stokesIntegration_eq cut pI pJ nI nJ area jp1 jp2 jc1 jc2
+
+end Sparrow.Props.C06.StokesFn
